@@ -52,12 +52,30 @@ pub struct Outcome {
     pub registry: Registry,
     /// the edge relation as it left the filter (before any reordering)
     pub edges: Vec<(NodeId, NodeId)>,
+    /// FNV-1a fingerprint of the order in which facts and edges were actually presented to
+    /// the two datalog programs (crate by crate, after any reordering)
+    pub order_fingerprint: u64,
 }
 
-#[derive(Default)]
 struct State {
     perturbation: Perturbation,
     edges: Vec<(NodeId, NodeId)>,
+    fingerprint: u64,
+}
+
+impl State {
+    fn mix(&mut self, bytes: &[u8]) {
+        for b in bytes {
+            self.fingerprint ^= u64::from(*b);
+            self.fingerprint = self.fingerprint.wrapping_mul(0x0100_0000_01b3);
+        }
+    }
+
+    fn mix_node(&mut self, tag: u8, crate_name: &str, id: u32) {
+        self.mix(&[tag]);
+        self.mix(crate_name.as_bytes());
+        self.mix(&id.to_le_bytes());
+    }
 }
 
 thread_local! {
@@ -82,17 +100,22 @@ where
         *s.borrow_mut() = Some(State {
             perturbation,
             edges: Vec::new(),
+            fingerprint: 0xcbf2_9ce4_8422_2325,
         });
     });
     let _reset = Reset;
     let registry = super::run(crate_name, load)?;
-    let edges = STATE.with(|s| {
+    let (edges, order_fingerprint) = STATE.with(|s| {
         s.borrow_mut()
             .as_mut()
-            .map(|s| std::mem::take(&mut s.edges))
+            .map(|s| (std::mem::take(&mut s.edges), s.fingerprint))
             .unwrap_or_default()
     });
-    Ok(Outcome { registry, edges })
+    Ok(Outcome {
+        registry,
+        edges,
+        order_fingerprint,
+    })
 }
 
 pub(super) fn permute_facts(
@@ -102,13 +125,24 @@ pub(super) fn permute_facts(
     ext_crate: &mut [(CrateNode,)],
 ) {
     STATE.with(|s| {
-        let s = s.borrow();
-        let Some(key) = s.as_ref().and_then(|s| s.perturbation.fact_key.as_ref()) else {
+        let mut s = s.borrow_mut();
+        let Some(state) = s.as_mut() else {
             return;
         };
-        summary.sort_by_cached_key(|(n,)| key(Fact::Summary, crate_name, n.id.id));
-        item.sort_by_cached_key(|(n,)| key(Fact::Item, crate_name, n.id.id));
-        ext_crate.sort_by_cached_key(|(n,)| key(Fact::ExtCrate, crate_name, n.id.id));
+        if let Some(key) = state.perturbation.fact_key.as_ref() {
+            summary.sort_by_cached_key(|(n,)| key(Fact::Summary, crate_name, n.id.id));
+            item.sort_by_cached_key(|(n,)| key(Fact::Item, crate_name, n.id.id));
+            ext_crate.sort_by_cached_key(|(n,)| key(Fact::ExtCrate, crate_name, n.id.id));
+        }
+        for (n,) in summary.iter() {
+            state.mix_node(1, crate_name, n.id.id);
+        }
+        for (n,) in item.iter() {
+            state.mix_node(2, crate_name, n.id.id);
+        }
+        for (n,) in ext_crate.iter() {
+            state.mix_node(3, crate_name, n.id.id);
+        }
     });
 }
 
@@ -131,6 +165,10 @@ pub(super) fn permute_edges(edges: &mut [(ItemNode, ItemNode)]) {
             edges.sort_by_cached_key(|(a, b)| {
                 key((&a.id.crate_, a.id.id), (&b.id.crate_, b.id.id))
             });
+        }
+        for (a, b) in edges.iter() {
+            state.mix_node(4, &a.id.crate_, a.id.id);
+            state.mix_node(5, &b.id.crate_, b.id.id);
         }
     });
 }
